@@ -1,4 +1,5 @@
 SPECIFICATION Spec
 INVARIANT Sane
+INVARIANT StillDrawOfAnimatedSource
 INVARIANT RelaxingNeverRejects
 CHECK_DEADLOCK FALSE
